@@ -401,10 +401,10 @@ Proof. unfold orc_dur_parse. destruct (assoc zlist_eqb s (o_parse o)) as [[[z|l|
 Lemma orc_b64_dec_no_panic o s : orc_b64_dec o s <> Panic.
 Proof. unfold orc_b64_dec. destruct (assoc zlist_eqb s (o_parse o)) as [[[z|l|a b]| |]|]; discriminate. Qed.
 
-Theorem accept_sound c : accept c = true -> holds c = true.
+Theorem accept0_sound c : accept0 c = true -> holds0 c = true.
 Proof.
-  intros Hacc. unfold accept in Hacc. apply andb_prop in Hacc as [Hacc _]. revert Hacc.
-  destruct c as [t tok o obs|t v o out back|v o obs|k old v o obs|k v old o out back]; cbn [accept_core holds].
+  intros Hacc. unfold accept0 in Hacc. apply andb_prop in Hacc as [Hacc _]. revert Hacc.
+  destruct c as [t tok o obs|t v o out back|v o obs|k old v o obs|k v old o out back|items]; cbn [accept_core holds0]; [| | | | |discriminate].
   - intros H. apply andb_prop in H as [_ H]. rewrite forallb_forall in *. intros r Hr. specialize (H r Hr).
     apply res_val_eqb_eq in H. subst r. apply dec_sound. apply orc_dur_parse_no_panic.
   - intros H. apply andb_prop in H as [H Hstd]. apply andb_prop in H as [He Hb].
@@ -424,6 +424,12 @@ Proof.
     apply (opt_eqb_eq sqlv_eqb sqlv_eqb_eq) in He. apply res_val_eqb_eq in Hb. subst back.
     rewrite (value_scan (orc_b64_dec o) (orc_b64_enc o) k v old out Ed); [apply res_val_eqb_refl| |exact He].
     intros l -> ->. cbn [std_b64_ok] in Hstd. apply (res_eqb_eq zlist_eqb zlist_eqb_eq) in Hstd. exact Hstd.
+Qed.
+
+Theorem accept_sound c : accept c = true -> holds c = true.
+Proof.
+  destruct c; cbn [accept holds]; try apply accept0_sound.
+  intros H. apply andb_prop in H as [_ H]. rewrite forallb_forall in *. intros i Hi. apply accept0_sound, H, Hi.
 Qed.
 
 (* Base64Bytes with the concrete codec of C20_Base64.v: Scan (Value b) = b without any hypothesis *)
